@@ -22,7 +22,9 @@ RULE = ('engine netio: cases = net_writen argument vectors: s[0] from the reply 
         '(dns_txt stand-in) and nomail files additionally with CR, LF, CRLF + "250 ok", NUL, DEL, other control octets, 8-bit octets, nomail texts with a '
         'valid / nearly valid / no reply code in front; three handlers answering with a literal. The reply is captured at write() behind the real lib/netio.c, '
         'compared with the generated template instantiated through the extracted net_writen / net_write_multiline model, and judged by spec_ok_site / '
-        'spec_ok_nomail / spec_ok_literal. non-trivial = folded or multi-line reply')
+        'spec_ok_nomail / spec_ok_literal. Session level: wait_for_quit() (real syntax.c) reading 0..12 command lines with the bad-command counter preset '
+        '(two-call reply of check_max_bad_commands, smtp_quit), smtp_data() refusing seven kinds of messages, the greeting of the real smtploop(), tls_out / '
+        'tls_err; the whole output must be a sequence of complete valid replies (reply_stream_ok). non-trivial = folded or multi-line reply')
 TRUSTED_BASE = [
     'Coq 8.16.1 kernel (coqc; coqchk in thorough); vm_compute in the non-vacuity example only; no native_compute',
     'axioms: none (Print Assumptions: Closed under the global context)',
@@ -37,14 +39,17 @@ TRUSTED_BASE = [
     'class invariants of embedded strings (Spec/ReplySitesSpec.v:class_inv) are HYPOTHESES of C10_sites_writen / C10_sites_multiline; C10_hole_sources derives them '
     'from the conclusions of C14_oracle_ref, C14_domain, C11_exp_text_clean, C05_line_shape, C10_dnstxt_clean; for HHdrName, HB64, HLibErr (OpenSSL error text), '
     'HAuthList, HNumCRLF they rest on reading the code (reports/C10-sites.md)',
-    'harness/replysites_*.c: real commands.c, addrparse.c, addrsyntax.c, xtext.c, the four filters, antispam.c, getfile.c, vpop.c, control.c, libowfatconn.c, netio.c; '
-    'stand-ins for DNS (libowfat dns_txt, ask_dnsa, ask_dnsmx), user_exists, rcpt_cbs[], check_host, smtp_authstring, find_servercert, logging, tarpit',
+    'harness/replysites_*.c: real qsmtpd.c (main renamed), commands.c, syntax.c, data.c, starttls.c, auth.c, addrparse.c, addrsyntax.c, xtext.c, the four filters, '
+    'antispam.c, getfile.c, vpop.c, control.c, libowfatconn.c, tls.c, ssl_timeoutio.c, netio.c; stand-ins for DNS (libowfat dns_txt, ask_dnsa, ask_dnsmx), '
+    'user_exists, rcpt_cbs[], check_host, smtp_authstring, the qmail-queue interface, logging, tarpit, conn_cleanup / dieerror / exit',
+    'the translator\'s rule for replies made of several calls (straight-line code only, no call of a function that writes to the client; call graph by '
+    'regular expression over function bodies) and its check that heloname is control/me validated by domainvalid() at start-up',
     'ocaml/replysites_driver.ml: case parsing, "pre" decisions (nothing sent / case names no generated shape / nomail text with NUL, LF or #)',
 ]
 ASSUMPTIONS = [
     'embedded strings contain no CR/LF (hypothesis no_crlf of C10_net_writen; engine replysites shows per call site that the callers meet it: by the class '
     'of every hole, and for DNS TXT records and the nomail file by the sanitising loops proved in C10_dnstxt_clean / C10_nomail)',
-    'sites not driven by the harness (smtp_data / smtp_bdat error replies, auth_cram, tls_out, tls_err, the greeting in smtploop) are covered by the template '
+    'sites not driven by the harness (auth_cram, smtp_bdat, the bad-CRLF data reply, most fixed literals) are covered by the template / literal '
     'theorems and the net_writen correspondence only; their templates come from the same translator',
     'the nomail text reaches cb_nomail as loadonelinerfd() returns it (no NUL, no LF, no #-comment; C16 models that function)',
     's[0] is "NNN" + separator + text, shorter than 510 octets (the asserts in net_writen; checked for every call-site template by the translator)',
